@@ -39,6 +39,7 @@ type Opts struct {
 	HookMax       time.Duration            // upper bound of a vsleep delay (default 2µs)
 	HookDelays    map[string]time.Duration // fixed delay per site (overrides the seeded one)
 	LisCloseDelay time.Duration            // closing the listener takes this long
+	EOFWithData   bool                     // corebgp's Reads return the last bytes of a closed connection together with io.EOF
 	WriteYields   int                      // every Write by corebgp yields the processor that many times first
 	CloseYields   int                      // every Close by corebgp yields the processor that many times first
 	CloseDelay    time.Duration            // every Close by corebgp takes this long (only for worlds in which Server.mu is never contended)
@@ -605,6 +606,7 @@ func (w *World) newPair(a0, a1 netip.AddrPort) *memnet.Pair {
 	p.CloseDelay0 = w.O.CloseDelay
 	p.CloseYields0 = w.O.CloseYields
 	p.WriteYields0 = w.O.WriteYields
+	p.EOFWithData0 = w.O.EOFWithData
 	w.pairs = append(w.pairs, p)
 	w.mu.Unlock()
 	return p
